@@ -18,6 +18,7 @@ func VerifC16_Histories() {
 	closed := false
 	queued := 0
 	nextCid := byte(1)
+	seen := map[byte]bool{} // CIDs in the duplicate filter
 	n := verif_Choose("operations", 1, 4+verif_Tier())
 	for i := 0; i < n; i++ {
 		op := verif_Choose("op", 0, 3)
@@ -35,12 +36,26 @@ func VerifC16_Histories() {
 			verif_Reach("closed")
 			verif_Assert(cerr == nil, "Close returns nil, also when repeated")
 			closed = true
-		case 1: // Direct with a fresh CID
-			if !closed && queued == 1 && !useCancelled && allow {
+		case 1: // Direct with a fresh CID, or repeating the previous one
+			repeat := nextCid > 1 && verif_Bool("repeatPreviousCid")
+			c := nextCid
+			if repeat {
+				c = nextCid - 1
+			} else {
+				nextCid++
+			}
+			dup := seen[c]
+			if !dup && !closed && queued == 1 && !useCancelled && allow {
 				continue // would legitimately wait for a consumer
 			}
-			derr := r.Direct(ctx, c09cid(nextCid), peer.AddrInfo{ID: "P"})
-			nextCid++
+			derr := r.Direct(ctx, c09cid(c), peer.AddrInfo{ID: "P"})
+			if allow && !closed {
+				seen[c] = true
+			}
+			if dup && !closed && allow {
+				verif_Assert(derr == nil, "a duplicate announcement on an open receiver is dropped without error")
+				continue
+			}
 			verif_Reach("direct returned")
 			switch {
 			case !allow:
@@ -67,6 +82,7 @@ func VerifC16_Histories() {
 			}
 		case 3: // UncacheCid
 			r.UncacheCid(c09cid(1))
+			delete(seen, 1)
 			verif_Reach("uncached")
 		}
 	}
